@@ -584,6 +584,7 @@ class ListFacts:
     cond: Formula = None           # membership condition, expressed over base_var
     stages: int = 0
     forms: Tuple[str, ...] = ()
+    key: Term = None               # for dictionaries: the key, expressed over base_var
 
 
 def _loop_stage_table(paths: List[Path]):
@@ -601,9 +602,10 @@ def _loop_stage_table(paths: List[Path]):
             i1 = evs.index(iters[1]) if len(iters) > 1 else (evs.index(ends[-1]) if ends else len(evs))
             seg = evs[i0:i1]
             depth = len(iters[0].loops)
-            conds = [e.data['formula'] for e in seg if e.kind == 'cond' and len(e.loops) == depth]
-            apps = [e for e in seg if e.kind == 'store' and e.data.get('store') == 'append' and isinstance(strip_versions(e.data.get('target')), Fresh)
-                    and len(e.loops) == depth]
+            # tests of inner loops are not conditions of the append: an inner loop that terminates is always left
+            conds = [e.data['formula'] for e in seg if e.kind == 'cond' and len(e.loops) == depth and not e.data.get('loop_test')]
+            apps = [e for e in seg if e.kind == 'store' and e.data.get('store') in ('append', 'setitem') and
+                    isinstance(strip_versions(e.data.get('target')), Fresh) and len(e.loops) == depth]
             early = any(e.data.get('how') != 'exhausted' for e in ends)
             row = table.setdefault(lp.node.lineno, {'var': None, 'info': iters[0].data['info'], 'src': lp.data.get('iter'), 'appended': {},
                                                     'dropped': [], 'early': False, 'multi': False})
@@ -613,7 +615,10 @@ def _loop_stage_table(paths: List[Path]):
             if apps:
                 tgt = strip_versions(apps[0].data.get('target'))
                 key = (tgt.kind, tgt.site)
-                slot = row['appended'].setdefault(key, {'elem': apps[0].data.get('args', (None,))[0], 'conds': []})
+                if apps[0].data.get('store') == 'setitem':
+                    slot = row['appended'].setdefault(key, {'elem': apps[0].data.get('value'), 'conds': [], 'key': apps[0].data.get('key')})
+                else:
+                    slot = row['appended'].setdefault(key, {'elem': apps[0].data.get('args', (None,))[0], 'conds': []})
                 slot['conds'].append(f_and(*conds))
             else:
                 row['dropped'].append(f_and(*conds))
@@ -635,10 +640,12 @@ def list_facts(paths: List[Path], p: Path, L: Term, is_base, _table=None, _depth
         r = list_facts(paths, p, inner, is_base, table, _depth + 1)
         return ListFacts(r.ok, r.err, r.base_src, r.base_var, r.elem, r.cond, r.stages + 1, r.forms + ('copy',)) if r.ok else r
     stage = None
-    if isinstance(L, Fresh) and L.kind in ('listcomp', 'gen') and L.detail is not None and len(L.detail.gens) == 1:
+    skey = None
+    if isinstance(L, Fresh) and L.kind in ('listcomp', 'gen', 'dictcomp') and L.detail is not None and len(L.detail.gens) == 1:
         tgt, src, conds = L.detail.gens[0]
         stage = ('comp', tgt, src, f_and(*conds), L.detail.elt)
-    elif isinstance(L, Fresh) and L.kind in ('list', 'call:list') and not L.items:
+        skey = L.detail.key
+    elif isinstance(L, Fresh) and L.kind in ('list', 'call:list', 'dict', 'call:dict') and not L.items:
         rows = [(ln, r) for ln, r in table.items() if (L.kind, L.site) in r['appended']]
         on_path = {e.node.lineno for e in p.events if e.kind == 'loop'}
         rows = [(ln, r) for ln, r in rows if ln in on_path]
@@ -663,12 +670,15 @@ def list_facts(paths: List[Path], p: Path, L: Term, is_base, _table=None, _depth
         here = [e for e in p.events if e.kind == 'loop' and e.node.lineno == ln]
         src_here = here[0].data.get('iter') if here else r['src']
         stage = ('loop', var, src_here, f_or(*slot['conds']), slot['elem'])
+        skey = slot.get('key')
+        if (skey is not None) != L.kind.endswith('dict'):
+            return ListFacts(False, 'a list is filled by item assignment / a dictionary by append')
     else:
         return ListFacts(False, f"{L!r} is neither a comprehension, a list filled by a loop, nor a copy of one")
     form, var, src, cond, elem = stage
     src_s = strip_versions(src)
     if is_base(src_s):
-        return ListFacts(True, '', src_s, var, elem, cond, 1, (form,))
+        return ListFacts(True, '', src_s, var, elem, cond, 1, (form,), skey)
     r = list_facts(paths, p, src_s, is_base, table, _depth + 1)
     if not r.ok:
         return r
@@ -677,7 +687,7 @@ def list_facts(paths: List[Path], p: Path, L: Term, is_base, _table=None, _depth
     from sa.terms import subst_term, subst_formula
     mp = {var: r.elem} if var is not None else {}
     return ListFacts(True, '', r.base_src, r.base_var, subst_term(elem, mp), f_and(r.cond, subst_formula(cond, mp)), r.stages + 1,
-                     r.forms + (form,))
+                     r.forms + (form,), subst_term(skey, mp) if skey is not None else None)
 
 
 # ---------------------------------------------------------------------------------------------- overrides
@@ -724,3 +734,69 @@ def check_overrides_forward(cx: Cx, cls_q: str, names: List[str], rule='R-FWD'):
             if okf:
                 cx.ok(rule, f"{fn.qualname} only forwards to the verified {name}", where=cx.where(fn), function=fn.qualname)
     return n
+
+
+# ---------------------------------------------------------------------------------------------- module-level state
+def _immutable_module_value(mod, v: ast.expr, seen=()) -> bool:
+    """The value bound to a module-level name cannot carry state from one call to the next: constants, tuples and
+    arithmetic of such, aliases of functions / classes / imports, typing aliases (Dict[str, Any]), and loggers."""
+    if isinstance(v, ast.Constant):
+        return True
+    if isinstance(v, ast.Tuple):
+        return all(_immutable_module_value(mod, x, seen) for x in v.elts)
+    if isinstance(v, ast.UnaryOp):
+        return _immutable_module_value(mod, v.operand, seen)
+    if isinstance(v, ast.BinOp):
+        return _immutable_module_value(mod, v.left, seen) and _immutable_module_value(mod, v.right, seen)
+    if isinstance(v, ast.Name):
+        if v.id in mod.assigns and v.id not in seen:
+            return _immutable_module_value(mod, mod.assigns[v.id], seen + (v.id,))
+        return v.id not in mod.assigns
+    if isinstance(v, ast.Attribute):
+        root = v
+        while isinstance(root, ast.Attribute):
+            root = root.value
+        return isinstance(root, ast.Name) and root.id in mod.imports
+    if isinstance(v, ast.Subscript):
+        root = v.value
+        while isinstance(root, ast.Attribute):
+            root = root.value
+        if isinstance(root, ast.Name) and (mod.imports.get(root.id, '').startswith('typing') or root.id in ('list', 'dict', 'tuple', 'set', 'type')):
+            sl = v.slice.elts if isinstance(v.slice, ast.Tuple) else [v.slice]
+            return all(_immutable_module_value(mod, x, seen) or isinstance(x, ast.List) for x in sl)
+        return False
+    if isinstance(v, ast.Call):
+        f = v.func
+        if isinstance(f, ast.Attribute) and isinstance(f.value, ast.Name) and mod.imports.get(f.value.id) == 'logging' and f.attr == 'getLogger':
+            return True
+        if isinstance(f, ast.Name) and mod.imports.get(f.id) == 'logging.getLogger':
+            return True
+    return False
+
+
+def module_state_reads(fn: FuncInfo) -> List[ast.AST]:
+    """Loads of module-level names bound to mutable objects in the body of fn (annotations are not evaluated per call and
+    do not count), plus global / nonlocal declarations."""
+    mod = fn.module
+    skip = set()
+    for n in ast.walk(fn.node):
+        anns = []
+        if isinstance(n, (ast.FunctionDef, ast.AsyncFunctionDef)):
+            anns += [a.annotation for a in n.args.posonlyargs + n.args.args + n.args.kwonlyargs if a.annotation is not None]
+            anns += [x.annotation for x in (n.args.vararg, n.args.kwarg) if x is not None and x.annotation is not None]
+            if n.returns is not None:
+                anns.append(n.returns)
+        elif isinstance(n, ast.AnnAssign):
+            anns.append(n.annotation)
+        for a in anns:
+            skip |= {id(x) for x in ast.walk(a)}
+    out = []
+    for n in ast.walk(fn.node):
+        if id(n) in skip:
+            continue
+        if isinstance(n, ast.Name) and isinstance(n.ctx, ast.Load) and n.id in mod.assigns and \
+                not _immutable_module_value(mod, mod.assigns[n.id]):
+            out.append(n)
+        elif isinstance(n, (ast.Global, ast.Nonlocal)):
+            out.append(n)
+    return out
